@@ -21,7 +21,7 @@ CHECKS = {
             "content carries unique text and binary markers; after quiescence the checker requires exactly one delivery per "
             "intended recipient with identical protobuf content, sender and group identity, none elsewhere, no delivery without "
             "a sent message, the recipient's delivery receipt at the sender, re-acknowledged duplicates, a retry receipt after "
-            "corruption, and no marker in any frame that left a client. 420 runs quick / 25 000 thorough; schedules sampled. A plaintext frame is attributed to the known recipient-without-keys mechanism by what the server double observed (its directory had no keys for the recipient when the sender asked), not by the scenario.",
+            "corruption, and no marker in any frame that left a client. 420 runs quick / 25 000 thorough; schedules sampled. A plaintext frame is attributed to the known recipient-without-keys mechanism by what the server double observed (its directory had no keys for the recipient when the sender asked), not by the scenario. Message kinds include replies quoting an earlier message; the leading field of every delivered message (text, caption url, name, quoted text) is read from the entity itself and compared with what the sender wrote, independently of the library's converter.",
             "Trusted: the server double (our reading of the server's routing), python-axolotl (padding shim). Framed wiring without noise/segments (C04/C11 cover those).",
             "DESIGN.md 4/C03"),
     "C01": ("exploration",
@@ -48,7 +48,7 @@ CHECKS = {
             "Every partition of every short frame list (all 2^(L-1) chunkings, L up to 15 quick / 19 thorough, two content "
             "modes incl. header-looking payloads) plus random streams up to 16 MiB frames are pushed through the real "
             "YowNoiseSegmentsLayer; a probe above must see exactly the sent frames, a probe below exactly len3+payload. "
-            "Exhaustive for short streams, sampled above; that is as much as executions can give for an unbounded input space. Reconnect cases: a stream is cut at a random byte, the 'disconnected' announcement is emitted the way the network layer does (detached, from the layer directly below) and the next stream follows before the stack's loop turns; exactly the complete frames before the cut and all later frames must come out.",
+            "Exhaustive for short streams, sampled above; that is as much as executions can give for an unbounded input space. Reconnect cases: a stream is cut at a random byte, the 'disconnected' announcement is emitted the way the network layer does (detached, from the layer directly below) and the next stream follows before the stack's loop turns; exactly the complete frames before the cut and all later frames must come out. Real dispatchers: the loopback server writes frames around and above 64 KiB and bursts of thousands of small ones; the bytes handed to the framing layer must equal the bytes written and the connection must stay up.",
             "Trusted: the probe layers and the list comparison. Frames are non-empty. Single-threaded delivery (one network thread).",
             "DESIGN.md 4/C05"),
     "C15": ("exploration",
@@ -64,7 +64,7 @@ CHECKS = {
             "Tokens for digit strings of every length 1..20 and generated unicode phone strings are compared with an independent "
             "HMAC-SHA1; every single byte / Latin-1 char / a spread of code points and generated str/bytes/int values must "
             "percent-decode to the original; generated parameter lists and the three real request classes (preview mode, "
-            "sendRequest intercepted, harness recipient key) must decrypt to the encoded parameters in order under distinct ephemeral keys. Tokens for different numbers are also computed concurrently by 2-4 threads on the process-wide environment object with yield injection inside yowsup/env. Every request object is sent a second time and a third time after addParam: fresh ephemeral key, current parameters.",
+            "sendRequest intercepted, harness recipient key) must decrypt to the encoded parameters in order under distinct ephemeral keys. Tokens for different numbers are also computed concurrently by 2-4 threads on the process-wide environment object with yield injection inside yowsup/env. Every request object is sent a second time and a third time after addParam: fresh ephemeral key, current parameters. A second environment class with other constants is registered: each environment's tokens are the keyed hash with its own constants, whatever was asked of the other before.",
             "Trusted: frozen copies of the three token constants, hmac/urllib/cryptography. Input space sampled.",
             "DESIGN.md 4/C20"),
     "C18": ("exploration",
@@ -74,7 +74,7 @@ CHECKS = {
             "emitter x consumer x emit/broadcast x normal/detached event (exactly once, in order, nothing after the consumer, "
             "deferred part only after the library's own loop body ran), interface lookup by class; all 16 getProtocolLayers/"
             "getDefaultLayers combos, positional forms, all 32x2 getDefaultStack combos, pushDefaultLayers. Exhaustive for the "
-            "small shapes and the flag space, sampled above. Every stack built by the default helpers is kept and its wiring (neighbour links, stack membership of every layer and sublayer) is verified again after later stacks were built; a builder with a pushed, popped and pushed layer is included.",
+            "small shapes and the flag space, sampled above. Every stack built by the default helpers is kept and its wiring (neighbour links, stack membership of every layer and sublayer) is verified again after later stacks were built; a builder with a pushed, popped and pushed layer is included. The library's own pass-through layer (logger) is placed as plain layer and as member of parallel groups of every size/position in explicit, implicit and builder compositions: data must reach every layer once.",
             "Trusted: the reference interpreter (our reading of the statement). Siblings inside the emitter's/consumer's own group: only 'at most once'.",
             "DESIGN.md 4/C18"),
     "C19": ("fault_enumeration",
@@ -144,7 +144,7 @@ CHECKS = {
             "every event the model is compared with load_unsent_prekeys, the stored keys and the uploads seen by the server: "
             "pending == stored minus confirmed, confirmed keys never re-offered, every offered (id, key) is in the store until a "
             "delivered first message consumed it and gone afterwards, a replay delivers nothing, identity/registration id match "
-            "the account and the signed prekey verifies under the identity (Curve.verifySignature). Overlapping uploads: the server asks again while earlier uploads are unanswered; results arrive in order, reversed, or the last one is lost.",
+            "the account and the signed prekey verifies under the identity (Curve.verifySignature). Overlapping uploads: the server asks again while earlier uploads are unanswered; results arrive in order, reversed, or the last one is lost. While an upload is unanswered the application issues pings that the server answers (their ids driven past the upload's id): the upload stays unconfirmed.",
             "Trusted: the server double (stores keys on processing the request), python-axolotl. Histories sampled.",
             "DESIGN.md 4/C14"),
     "C17": ("exploration",
@@ -205,7 +205,7 @@ CHECKS = {
             "presence, chat state, picture/status/contact/group notifications, calls, ib, success/failure/stream error/features) "
             "are injected at the bottom with generated values (25 draws per cell quick, 500 thorough). Exactly one stanza equal "
             "to the entity's serialisation / one entity of the documented class re-serialising to the stanza is required when "
-            "the owning module is selected, nothing and no exception otherwise. The kind x selection x wiring matrix is complete; values are sampled. All cases of one stack run interleaved in a seeded random order; a reach monitor requires an outgoing kind for every (layer, tag) send handler found in the assembled stack. Reply rounds: requests of every kind sent without callbacks, then their result/error replies in random order while others are outstanding: each reply must produce exactly one entity at the top.",
+            "the owning module is selected, nothing and no exception otherwise. The kind x selection x wiring matrix is complete; values are sampled. All cases of one stack run interleaved in a seeded random order; a reach monitor requires an outgoing kind for every (layer, tag) send handler found in the assembled stack. Reply rounds: requests of every kind sent without callbacks, then their result/error replies in random order while others are outstanding: each reply must produce exactly one entity at the top. Delivered entities are read twice (second serialisation must equal the first); incoming receipts with <list> of items are included.",
             "Trusted: the ownership rule (package defining the entity class) and vf/catalogue.py. iq replies are C08's, encrypted stanzas C03's.",
             "DESIGN.md 4/C06"),
     "C07": ("exploration",
